@@ -5,6 +5,7 @@ import (
 	"go/constant"
 	"go/token"
 	"go/types"
+	"strings"
 
 	"golang.org/x/tools/go/ssa"
 )
@@ -173,18 +174,31 @@ func cmpInts(op token.Token, a, b int64) bool {
 // "value v equals n": every atom comparing (a value equal to) v with an integer constant is decided.
 func ScenarioAssign(fn *ssa.Function, site *ssa.BasicBlock, v ssa.Value, n int64) map[ssa.Value]bool {
 	assign := map[ssa.Value]bool{}
-	for _, a := range CondAtomsReaching(fn, site) {
+	// every atom on v is decided, wherever it stands: a test from which the site cannot be reached does not
+	// change whether the site is reached
+	for _, a := range CondAtoms(fn) {
 		b, ok := a.(*ssa.BinOp)
 		if !ok {
 			continue
 		}
-		if c, ok := ConstInt(b.Y); ok && sameValue(b.X, v) {
+		if c, ok := constIntegral(b.Y); ok && sameValue(b.X, v) {
 			assign[a] = cmpInts(b.Op, n, c)
-		} else if c, ok := ConstInt(b.X); ok && sameValue(b.Y, v) {
+		} else if c, ok := constIntegral(b.X); ok && sameValue(b.Y, v) {
 			assign[a] = cmpInts(b.Op, c, n)
 		}
 	}
 	return assign
+}
+
+// constIntegral: an integer constant, or a floating point constant with an integral value.
+func constIntegral(v ssa.Value) (int64, bool) {
+	if c, ok := ConstInt(v); ok {
+		return c, true
+	}
+	if f, ok := ConstFloat(v); ok && f == float64(int64(f)) {
+		return int64(f), true
+	}
+	return 0, false
 }
 
 // SignScenario decides atoms under "v is negative" (sign=-1), or "v is positive" (+1): only comparisons
@@ -715,4 +729,108 @@ func ProveAtLeast(fn *ssa.Function, v ssa.Value, n int64, at *ssa.BasicBlock) (b
 		}
 	}
 	return false, fmt.Sprintf("no test keeps control away when the divisor is below %d", n)
+}
+
+// ProveNonZero decides that an integer value cannot be zero at `at`: the forms of ProveDivisor, or the result of a
+// max-like call (MaxInt, Max, max) with a positive constant argument.
+func (p *Prog) ProveNonZero(fn *ssa.Function, at ssa.Instruction, v ssa.Value) (bool, string) {
+	return p.proveNonZeroDepth(fn, at, v, 0)
+}
+
+func (p *Prog) proveNonZeroDepth(fn *ssa.Function, at ssa.Instruction, v ssa.Value, depth int) (bool, string) {
+	base := stripIntWiden(v)
+	if cv, ok := base.(*ssa.Convert); ok { // int(max(1, x)): truncation keeps a value >= 1 at least 1
+		base = cv.X
+	}
+	if phi, ok := base.(*ssa.Phi); ok && depth < 3 {
+		all := len(phi.Edges) > 0
+		for _, e := range phi.Edges {
+			if ok, _ := p.proveNonZeroDepth(fn, at, e, depth+1); !ok {
+				all = false
+			}
+		}
+		if all {
+			return true, "every value merged here is non-zero"
+		}
+	}
+	if call, ok := base.(*ssa.Call); ok {
+		name := ""
+		if bi, isB := call.Call.Value.(*ssa.Builtin); isB {
+			name = bi.Name()
+		} else if cal := call.Call.StaticCallee(); cal != nil {
+			name = cal.Name()
+		}
+		switch strings.ToLower(name) {
+		case "max", "maxint", "maxf":
+			for _, a := range call.Call.Args {
+				if k, ok := a.(*ssa.Const); ok && k.Value != nil && constant.Sign(k.Value) > 0 {
+					return true, name + " with the positive constant " + k.Value.String()
+				}
+			}
+		}
+	}
+	return p.proveNonZeroValue(fn, at, v, 0)
+}
+
+// CountNonZero decides that the divisor of a floating point division — an integer count converted to float — is
+// not zero: ProveNonZero on the count; a dominating test on the converted value itself; a division in the body of a
+// `range S` loop by len(S); a count of the form n + k with n non-negative and k a positive constant.
+func (p *Prog) CountNonZero(fn *ssa.Function, div *ssa.BinOp, count ssa.Value) (bool, string) {
+	if ok, how := p.ProveNonZero(fn, div, count); ok {
+		return true, how
+	}
+	// a test on the float value
+	for v := div.Y; v != nil; {
+		if ok, how := NonZeroAt(fn, div, v); ok {
+			return true, how + " (on the converted value)"
+		}
+		switch x := v.(type) {
+		case *ssa.Convert:
+			v = x.X
+		case *ssa.ChangeType:
+			v = x.X
+		default:
+			v = nil
+		}
+	}
+	// len(S) in the body of a loop over S
+	if call, ok := stripIntWiden(count).(*ssa.Call); ok {
+		if bi, isB := call.Call.Value.(*ssa.Builtin); isB && bi.Name() == "len" {
+			for _, l := range Loops(fn) {
+				h := l.Header
+				if !l.Blocks[div.Block()] || div.Block() == h || len(h.Instrs) == 0 {
+					continue
+				}
+				ifi, ok := h.Instrs[len(h.Instrs)-1].(*ssa.If)
+				if !ok {
+					continue
+				}
+				cmp, ok := ifi.Cond.(*ssa.BinOp)
+				if !ok || cmp.Op != token.LSS {
+					continue
+				}
+				lc, ok := cmp.Y.(*ssa.Call)
+				if !ok {
+					continue
+				}
+				if b2, isB := lc.Call.Value.(*ssa.Builtin); !isB || b2.Name() != "len" {
+					continue
+				}
+				if sameValue(lc.Call.Args[0], call.Call.Args[0]) && h.Succs[0].Dominates(div.Block()) {
+					return true, "in the body of the loop over the slice whose length divides"
+				}
+			}
+		}
+	}
+	// n + k
+	if bo, ok := stripIntWiden(count).(*ssa.BinOp); ok && bo.Op == token.ADD {
+		for _, pair := range [][2]ssa.Value{{bo.X, bo.Y}, {bo.Y, bo.X}} {
+			if k, isK := ConstInt(pair[1]); isK && k > 0 {
+				if nn, how := NonNegativeAt(fn, div, pair[0], nil); nn {
+					return true, fmt.Sprintf("non-negative (%s) plus %d", how, k)
+				}
+			}
+		}
+	}
+	return false, "no clamp, test or enclosing loop excludes a zero count"
 }
